@@ -500,3 +500,120 @@ def explore_harness(factory_path, args=(), nproc=1, split=None, **ekw):
             slim.extend(sl)
     total.wall_s = e.stats.wall_s
     return total, slim
+
+
+# ---------------------------------------------------------------------- association-list dict for symbolic keys
+class SymDict(dict):
+    """dict subclass with association-list semantics: key lookups use == (which forks for Name / SymInt keys),
+    so a symbolic Name can be found equal to a plain-str key the code under test builds (e.g. an f-string).
+    Insertion order is preserved like dict.  The underlying C dict storage is never used."""
+
+    def __init__(self, src=(), **kw):
+        dict.__init__(self)
+        self._it = []
+        self.update(src, **kw)
+
+    def _find(self, k):
+        for i, kv in enumerate(self._it):
+            if kv[0] is k or kv[0] == k:
+                return i
+        return -1
+
+    def __contains__(self, k):
+        return self._find(k) >= 0
+
+    def __getitem__(self, k):
+        i = self._find(k)
+        if i < 0:
+            raise KeyError(k)
+        return self._it[i][1]
+
+    def __setitem__(self, k, v):
+        i = self._find(k)
+        if i < 0:
+            self._it.append([k, v])
+        else:
+            self._it[i][1] = v
+
+    def __delitem__(self, k):
+        i = self._find(k)
+        if i < 0:
+            raise KeyError(k)
+        del self._it[i]
+
+    def get(self, k, default=None):
+        i = self._find(k)
+        return default if i < 0 else self._it[i][1]
+
+    _MISSING = object()
+
+    def pop(self, k, default=_MISSING):
+        i = self._find(k)
+        if i < 0:
+            if default is SymDict._MISSING:
+                raise KeyError(k)
+            return default
+        v = self._it[i][1]
+        del self._it[i]
+        return v
+
+    def setdefault(self, k, default=None):
+        i = self._find(k)
+        if i < 0:
+            self._it.append([k, default])
+            return default
+        return self._it[i][1]
+
+    def update(self, src=(), **kw):
+        if isinstance(src, SymDict):
+            src = [(k, v) for k, v in src._it]
+        elif hasattr(src, "keys"):
+            src = [(k, src[k]) for k in src.keys()]
+        for k, v in src:
+            self[k] = v
+        for k, v in kw.items():
+            self[k] = v
+
+    def keys(self):
+        return [kv[0] for kv in self._it]
+
+    def values(self):
+        return [kv[1] for kv in self._it]
+
+    def items(self):
+        return [(kv[0], kv[1]) for kv in self._it]
+
+    def __iter__(self):
+        return iter(self.keys())
+
+    def __len__(self):
+        return len(self._it)
+
+    def __bool__(self):
+        return len(self._it) > 0
+
+    def clear(self):
+        self._it = []
+
+    def copy(self):
+        return SymDict(self)
+
+    def __eq__(self, o):
+        if not hasattr(o, "keys"):
+            return False
+        if len(self) != len(o):
+            return False
+        for k, v in self._it:
+            if k not in o:
+                return False
+            if not (o[k] == v):
+                return False
+        return True
+
+    def __ne__(self, o):
+        return not self.__eq__(o)
+
+    __hash__ = None
+
+    def __repr__(self):
+        return "SymDict(%r)" % (self._it,)
